@@ -143,7 +143,8 @@ pub fn check_state(cfg: &HistCfg, st: &HState, built: bool, w: &mut Worker) -> R
         Ok(())
     })?;
     // 0.5 -> 0.6: exactly one version record per index that has metadata, nothing else changes
-    if built {
+    // (run on built states and on never-built ones, which hold items but no metadata)
+    if built || st.model.built.is_none() {
         SECOND_ENV.with(|s| -> Result<(), Fail> {
             let s = s.borrow();
             let b = s.as_ref().unwrap();
